@@ -9,6 +9,11 @@ NShards == atoi(IOEnv.VH_SHARDS)
 N == Len(Trace)
 VARIABLES l, hi
 vars == <<l, hi>>
+FanKiB(n) == ((n \div 8) * n) \div 1024
+FanAllocBoundKiB(n) == (5 * FanKiB(n)) \div 2 + AllocBoundKiB(n, 1)
+FanSizeBoundKiB(n) == (3 * FanKiB(n)) \div 2 + SizeBoundKiB(n)
+\* beyond even the amplification that is a known finding
+Worse(e) == e.allocKiB > FanAllocBoundKiB(e.n) \/ e.retainedKiB > FanSizeBoundKiB(e.n)
 Agree(e) == /\ ~e.killed                                    \* finished within the time limit
             /\ e.allocKiB <= AllocBoundKiB(e.n, e.depth)
             /\ e.retainedKiB <= SizeBoundKiB(e.n)
@@ -17,6 +22,7 @@ ShardHi(k) == (k * N) \div NShards
 Init == \E k \in 1..NShards : l = ShardLo(k) /\ hi = ShardHi(k)
 Next == /\ l <= hi
         /\ (IF Agree(Trace[l]) THEN TRUE ELSE PrintT(<<"MISMATCH", Trace[l].id>>))
+        /\ (IF Worse(Trace[l]) THEN PrintT(<<"WORSE", Trace[l].id>>) ELSE TRUE)
         /\ l' = l + 1 /\ hi' = hi
 TraceSpec == Init /\ [][Next]_vars
 =============================================================================
